@@ -3,6 +3,7 @@
 -/
 import IcontractModel.Lemmas.Instances
 import IcontractModel.Spec.Trace
+import IcontractModel.Lemmas.Strip
 namespace Icontract
 open Res
 
@@ -13,14 +14,24 @@ path of the plain (non-coroutine) rendering of the same checker under `o'`. -/
 theorem C13_async_equals_sync_on_awaited (ck : Checker) (o o' : Oracle) (call : Call)
     (h : AwaitedOracle ck o o') :
     (checkedAsync ck o call).stripAwait = checkedSync ck.plain o' call := by
-  sorry
+  exact checked_strip ck o o' call h
 
 /-- The same for the whole wrappers, including the in-progress bookkeeping. -/
 theorem C13_wrappers_agree (ck : Checker) (o o' : Oracle) (s : IdSet) (call : Call)
     (h : AwaitedOracle ck o o') :
     ((callAsync ck o s call).1.stripAwait, (callAsync ck o s call).2) =
     ((callSync ck.plain o' s call).1, (callSync ck.plain o' s call).2) := by
-  sorry
+  have hfid : ck.plain.fid = ck.fid := rfl
+  unfold callAsync callSync
+  cases assertNoInvalidKwargs call.kwargs with
+  | some e => rfl
+  | none =>
+    simp only [hfid]
+    cases s.contains ck.fid with
+    | true =>
+      simp only [if_true, runBody_stripAwait, runBody_congr o o' call h.body]
+    | false =>
+      simp only [Bool.false_eq_true, if_false, checked_strip ck o o' call h]
 
 /-- On a sync callable a coroutine-function condition, or a condition that returns a coroutine, is
 rejected with ValueError — it is never judged (no truth test, never `ok`). -/
@@ -29,20 +40,48 @@ theorem C13_sync_rejects_coroutine_precondition (o : Oracle) (kw : Kwargs) (c : 
     (hc : c.coroFn = true ∨ (o.cond c.id).isCoro = true) :
     (∃ k, (evalPreSync o kw c).out = .error (.valueErr k none)) ∧
     (∀ ev ∈ (evalPreSync o kw c).trace, ev ≠ .boolTest c.id) := by
-  sorry
+  unfold evalPreSync selectConditionKwargs
+  simp only [hm, if_true, pure_bind']
+  cases hcf : c.coroFn with
+  | true => exact ⟨⟨_, rfl⟩, by simp⟩
+  | false =>
+    simp only [hcf, Bool.false_eq_true, false_or] at hc
+    simp only [Bool.false_eq_true, if_false]
+    cases ha : o.cond c.id with
+    | coro a => exact ⟨⟨.coroCondOnSync c.id, by simp⟩, by simp⟩
+    | val v t => simp [ha, Ans.isCoro] at hc
+    | raises e => simp [ha, Ans.isCoro] at hc
 
 theorem C13_sync_rejects_coroutine_postcondition (o : Oracle) (kw : Kwargs) (c : Contract)
     (hm : (missingNames c.mandatory kw).isEmpty = true)
     (hc : c.coroFn = true ∨ (o.cond c.id).isCoro = true) :
     (∃ k, (evalPostSync o kw c).out = .error (.valueErr k none)) ∧
     (∀ ev ∈ (evalPostSync o kw c).trace, ev ≠ .boolTest c.id) := by
-  sorry
+  unfold evalPostSync selectConditionKwargs
+  cases hcf : c.coroFn with
+  | true => exact ⟨⟨_, rfl⟩, by simp⟩
+  | false =>
+    simp only [hcf, Bool.false_eq_true, false_or] at hc
+    simp only [hm, if_true, pure_bind', Bool.false_eq_true, if_false]
+    cases ha : o.cond c.id with
+    | coro a => exact ⟨⟨.coroCondOnSync c.id, by simp⟩, by simp⟩
+    | val v t => simp [ha, Ans.isCoro] at hc
+    | raises e => simp [ha, Ans.isCoro] at hc
 
 theorem C13_sync_rejects_coroutine_capture (o : Oracle) (kw : Kwargs) (acc : List (String × Id))
     (s : Snapshot) (ss : List Snapshot)
     (hm : (missingNames s.args kw).isEmpty = true)
     (hc : s.coroFn = true ∨ (o.capture s.id).isCoro = true) :
     ∃ k, (captureOldSync o kw acc (s :: ss)).out = .error (.valueErr k none) := by
-  sorry
+  unfold captureOldSync selectCaptureKwargs
+  cases hcf : s.coroFn with
+  | true => exact ⟨_, rfl⟩
+  | false =>
+    simp only [hcf, Bool.false_eq_true, false_or] at hc
+    simp only [hm, if_true, pure_bind', Bool.false_eq_true, if_false]
+    cases ha : o.capture s.id with
+    | coro a => exact ⟨.coroCaptureOnSync s.id, by simp⟩
+    | val v t => simp [ha, Ans.isCoro] at hc
+    | raises e => simp [ha, Ans.isCoro] at hc
 
 end Icontract
